@@ -58,7 +58,8 @@ CHECKS = {
             "from any cell state (recovery). The history quantifier is discharged by invariant. The snoop tool: the "
             "verbose decoder class it instantiates obeys the same per-frame specification, uds.is_response_pending is "
             "total and exact on any payload, handle_telegram never raises over a layer obeying the decode interface "
-            "contract.",
+            "contract, nor over a real layer whose service carries one of the real end-to-end descriptions (payload of "
+            "0..6 arbitrary bytes, bounded).",
             "total contract (precondition true) with exceptional postcondition 'raises nothing' + ghost-state lemma; z3"),
     "C17": ("contracts of odxraise/odxassert/odxrequire with the flag symbolic and read at call time; a reads-frame "
             "obligation per module of odxtools/** (the flag is never copied at import time); string decoding obeys the "
@@ -105,7 +106,10 @@ CHECKS.update({
             "open finding (services without constant prefix are never found) is listed in known_findings.json. "
             "The constant prefix computed by the real composite_codec_get_coded_const_prefix is a prefix of every PDU of "
             "six real descriptions (also for partially known requests and after earlier questions on the same object); "
-            "ServiceBinner files a service under the first byte of its request (coded constants symbolic).",
+            "ServiceBinner files a service under the first byte of its request (coded constants symbolic). With real "
+            "requests and responses below the layer (shared prefix, differing lengths, reserved tail, NRC-CONST followed "
+            "by an unpositioned parameter) every message of 0..5 bytes is attributed to exactly the matching "
+            "descriptions with the values its bytes hold, and own encodings come back with the original values.",
             "pre/postcondition of DiagLayer.decode / DiagService.decode_message against a declarative attribution "
             "specification, children by interface contract; message symbolic; z3"),
     "C09": ("the real _compute_available_objects (recursive) and priority sort run on real HierarchyElement/DiagLayer "
